@@ -4,6 +4,7 @@
 -/
 import Vlsp.Model.Server
 import Vlsp.Lemmas.Utf16Span
+import Vlsp.Props.C07Locate
 
 namespace Vlsp.C05
 open Vlsp Vlsp.Text Vlsp.Slice Vlsp.Pos Vlsp.Server
@@ -13,17 +14,27 @@ theorem utf16Length_append (a b : Text) : utf16Length (a ++ b) = utf16Length a +
   | nil => simp [utf16Length]
   | cons c cs ih => simp [utf16Length, ih]; omega
 
-/-- **the diagnostic range on the wire, in the client's units**: for ANY document that splits at the reported place as
-    `before ++ lp ++ mid ++ post` (`lp` = the text of the line before the spec, `mid` = the spec's text), a diagnostic
-    whose byte column is `|lp|` and whose byte range delimits `mid` goes out with start character = UTF-16 length of `lp`
-    and end character = UTF-16 length of `lp ++ mid`, on the same line, same severity and message -/
-theorem c05_wire_units (before lp mid post : Text) (d : Diag)
-    (hcol : d.c1 = byteLen lp) (hso : d.so = byteLen before + byteLen lp) (heo : d.eo = d.so + byteLen mid)
+/-- **the diagnostic range on the wire, in the client's units**: let `q` be the package narrowed to its version text
+    (`version_text_range`, or the package itself when the version does not occur in its token). For ANY document that
+    splits at `q` as `before ++ lp ++ mid ++ post` (`lp` = the text of the line before the range, `mid` = the text of the
+    range), the diagnostic goes out with start character = UTF-16 length of `lp` and end character = UTF-16 length of
+    `lp ++ mid`, on the same line, same severity and message -/
+theorem c05_wire_units (before lp mid post : Text) (d : Diag) (q : PkgInfo)
+    (hq : q = (Bump.locateBytes (before ++ lp ++ mid ++ post) d.pkg).getD d.pkg)
+    (hcol : q.column = byteLen lp) (hso : q.startOffset = byteLen before + byteLen lp) (heo : q.endOffset = q.startOffset + byteLen mid)
     (hnl : ∀ c ∈ lp, c ≠ '\n') :
     wireDiag (before ++ lp ++ mid ++ post) d =
       { d with c1 := utf16Length lp, c2 := utf16Length (lp ++ mid) } := by
   unfold wireDiag
-  rw [utf16Span_spec before lp mid post d.c1 d.so d.eo hcol hso heo hnl, utf16Length_append]
+  simp only [← hq]
+  rw [utf16Span_spec before lp mid post q.column q.startOffset q.endOffset hcol hso heo hnl, utf16Length_append]
+
+/-- **and `mid` IS the spec text** (the version; the hash of a hash-pinned action) whenever it occurs in the token: the
+    reported range is exactly the spec (quoted `uses:` values, npm aliases and JSR specifiers included) -/
+theorem c05_wire_covers_spec (content : Text) (p q : PkgInfo) (h : Bump.locateBytes content p = some q) :
+    slice content q.startOffset q.endOffset = some (Bump.rangeText p) ∧ p.startOffset ≤ q.startOffset ∧ q.endOffset ≤ p.endOffset := by
+  obtain ⟨hs, h1, h2, _, _, _, _, he, _, _⟩ := Bump.locate_covers content p q h
+  exact ⟨by rw [he]; exact hs, h1, by rw [he]; exact h2⟩
 
 /-- a publication changes on the wire in its ranges only, and every range is converted with the text the server holds
     for THAT document -/
@@ -31,11 +42,16 @@ theorem c05_wire_pub (s : Srv) (uri : Text) (ds : List Diag) :
     wire s (.pub uri ds) = .pub uri (ds.map (wireDiag (textOf0 s.texts uri))) := rfl
 
 /-- when the offsets do not fit the text (a stale or foreign package), the byte columns go out unchanged -/
-theorem c05_wire_fallback (content : Text) (d : Diag) (h : utf16Span content d.c1 d.so d.eo = none) :
+theorem c05_wire_fallback (content : Text) (d : Diag)
+    (h : let q := (Bump.locateBytes content d.pkg).getD d.pkg; utf16Span content q.column q.startOffset q.endOffset = none) :
     wireDiag content d = d := by
-  unfold wireDiag; rw [h]
+  unfold wireDiag; simp only at h ⊢; rw [h]
 
-/-- non-vacuity: after the two-byte `é` the spec `1.0.0` is at UTF-16 characters 6..11, not at bytes 7..12 -/
-example : wireDiag "\"é\": \"1.0.0\"".toList ⟨.warning, [], 0, 7, 12, 7, 12⟩ = ⟨.warning, [], 0, 6, 11, 7, 12⟩ := by decide
+/-- non-vacuity: after the two-byte `é` the spec `1.0.0` is at UTF-16 characters 6..11, not at bytes 7..12; the quoted
+    `uses:` value whose parser range is `@v4"` goes out as exactly `v4` -/
+example : (wireDiag "\"é\": \"1.0.0\"".toList ⟨.warning, [], 0, 7, 12, ⟨"é".toList, "1.0.0".toList, none, 7, 12, 0, 7, none⟩⟩).c1 = 6 ∧
+    (wireDiag "\"é\": \"1.0.0\"".toList ⟨.warning, [], 0, 7, 12, ⟨"é".toList, "1.0.0".toList, none, 7, 12, 0, 7, none⟩⟩).c2 = 11 := by decide
+example : (wireDiag "- uses: \"a/b@v4\"".toList ⟨.warning, [], 0, 12, 16, ⟨"a/b".toList, "v4".toList, none, 12, 16, 0, 12, none⟩⟩).c1 = 13 ∧
+    (wireDiag "- uses: \"a/b@v4\"".toList ⟨.warning, [], 0, 12, 16, ⟨"a/b".toList, "v4".toList, none, 12, 16, 0, 12, none⟩⟩).c2 = 15 := by decide
 
 end Vlsp.C05
